@@ -300,7 +300,13 @@ def gen_world_args(rng, spec, T, xs):
         secs = ws[0] * T[spec.uout[0]][2]
         t = Time("2020-01-01T00:00:00") + float(secs) * u.s
         s = float((t - Time("2020-01-01T00:00:00")).sec)
-        return glist([f"(WTime Q {gq(s)})"]), [t], given, tag
+        # the same instant expressed in another time scale (the reference epoch of the frame is UTC) or format
+        how = rng.choice(["utc", "utc", "tai", "tt", "jd-pair"])
+        if how in ("tai", "tt"):
+            t = getattr(t, how)
+        elif how == "jd-pair":
+            t = Time(t.jd1, t.jd2, format="jd", scale="utc")
+        return glist([f"(WTime Q {gq(s)})"]), [t], given, tag + ":" + how
     # sky
     frs = sky_frames()
     lon_deg = float(ws[0] * T[spec.uout[0]][2])
